@@ -13,20 +13,21 @@ open OsmoVerif.Mint OsmoVerif.Num OsmoVerif.Spec
 theorem chopRound_mul_exact (k : Int) : chopRound P18 (k * P18) = k :=
   (chopRound_isHalfEven P18 (k * P18) P18_pos P18_even).exact P18_pos
 
-/-- each share is the proportion of the amount, truncated toward zero. -/
+/-- each share is the proportion of the amount, truncated toward zero (and not negative: `sdk.NewCoin`).
+Proved by unfolding the REGENERATED `Gen.Mint.getProportions`. -/
 theorem getProportions_truncated {a r x : Int} (h : getProportions a r = some x) :
     r ≤ P18 ∧ IsTrunc (a * r) P18 x := by
-  unfold getProportions at h
+  unfold getProportions Gen.Mint.getProportions at h
   split at h
   · cases h
   · rename_i hr
-    cases hm : Dec.mul (a * P18) r with
+    cases hm : Dec.mul (SInt.toDec a) r with
     | none => rw [hm] at h; cases h
     | some m =>
       rw [hm] at h
-      simp only [Option.bind_eq_bind, Option.bind_some, bind] at h
+      simp only [Option.bind_some] at h
       have hmv : m = a * r := by
-        unfold Dec.mul chkDec at hm
+        unfold Dec.mul chkDec SInt.toDec at hm
         split at hm
         · injection hm with hm
           rw [← hm]
@@ -35,11 +36,44 @@ theorem getProportions_truncated {a r x : Int} (h : getProportions a r = some x)
           rw [this]; exact chopRound_mul_exact _
         · cases hm
       subst hmv
-      unfold Dec.truncateInt chkInt at h
-      split at h
-      · injection h with h; subst h
-        exact ⟨by omega, tdiv_isTrunc _ _ P18_pos⟩
-      · cases h
+      cases ht : Dec.truncateInt (a * r) with
+      | none => rw [ht] at h; cases h
+      | some q =>
+        rw [ht] at h
+        simp only [Option.bind_some] at h
+        unfold newCoin at h
+        split at h
+        · cases h
+        · injection h with h; subst h
+          unfold Dec.truncateInt chkInt at ht
+          split at ht
+          · injection ht with ht; subst ht
+            exact ⟨by omega, tdiv_isTrunc _ _ P18_pos⟩
+          · cases ht
+
+/-- the minted amount is the integer part of the provision and is not negative (`TruncateInt`, `sdk.NewCoin`).
+Proved by unfolding the REGENERATED `Gen.Mint.EpochProvision`. -/
+theorem epochProvision_spec {prov m : Int} (h : Gen.Mint.EpochProvision prov = some m) :
+    IsTrunc prov P18 m ∧ 0 ≤ m := by
+  unfold Gen.Mint.EpochProvision at h
+  cases ht : Dec.truncateInt prov with
+  | none => rw [ht] at h; cases h
+  | some q =>
+    rw [ht] at h
+    simp only [Option.bind_some] at h
+    unfold newCoin at h
+    split at h
+    · cases h
+    · injection h with h; subst h
+      unfold Dec.truncateInt chkInt at ht
+      split at ht
+      · injection ht with ht; subst ht
+        exact ⟨tdiv_isTrunc _ _ P18_pos, by omega⟩
+      · cases ht
+
+/-- the reduction is the 18-decimal half-even product (the REGENERATED `Gen.Mint.NextEpochProvisions`). -/
+theorem nextEpochProvisions_eq (prov factor : Int) :
+    Gen.Mint.NextEpochProvisions prov factor = Dec.mul prov factor := rfl
 
 /-! ## allocation -/
 
@@ -65,33 +99,26 @@ theorem allocation {p : Params} {s s' : State} {e : Int} {o : Obs}
       split at h
       · cases h
       · rename_i minted hmint
+        obtain ⟨hm, hnonneg⟩ := epochProvision_spec hmint
         split at h
-        · cases h
-        · rename_i hnonneg
+        · rename_i st pl dv hst hpl hdv
           split at h
-          · rename_i st pl dv hst hpl hdv
-            split at h
-            · cases h
-            · split at h
-              · cases h
-              · rename_i paid hpaid
-                split at h
-                · cases h
-                · split at h
-                  · cases h
-                  · rename_i hcomm
-                    injection h with h
-                    injection h with h1 h2
-                    injection h2 with h2
-                    subst h1; subst h2
-                    have hm : IsTrunc prov P18 minted := by
-                      unfold Dec.truncateInt chkInt at hmint
-                      split at hmint
-                      · injection hmint with hmint; subst hmint; exact tdiv_isTrunc _ _ P18_pos
-                      · cases hmint
-                    exact ⟨by simp only; omega, by simp only; omega, by simp only; omega, by simp only; omega, hm,
-                      (getProportions_truncated hst).2, (getProportions_truncated hpl).2, (getProportions_truncated hdv).2⟩
           · cases h
+          · split at h
+            · cases h
+            · rename_i paid hpaid
+              split at h
+              · cases h
+              · split at h
+                · cases h
+                · rename_i hcomm
+                  injection h with h
+                  injection h with h1 h2
+                  injection h2 with h2
+                  subst h1; subst h2
+                  exact ⟨by simp only; omega, by simp only; omega, by simp only; omega, by simp only; omega, hm,
+                    (getProportions_truncated hst).2, (getProportions_truncated hpl).2, (getProportions_truncated hdv).2⟩
+        · cases h
 
 /-- Reported supply: grows by the minted amount minus the part of the (burned) developer reward
 that was not paid out of the vesting account.  It is exactly the minted amount iff the per-receiver
@@ -109,23 +136,21 @@ theorem reported_supply_delta {p : Params} {s s' : State} {e : Int} {o : Obs}
     · split at h
       · cases h
       · split at h
-        · cases h
         · split at h
+          · cases h
           · split at h
             · cases h
             · split at h
               · cases h
               · split at h
                 · cases h
-                · split at h
-                  · cases h
-                  · injection h with h
-                    injection h with h1 h2
-                    injection h2 with h2
-                    subst h1; subst h2
-                    simp only
-                    constructor <;> omega
-          · cases h
+                · injection h with h
+                  injection h with h1 h2
+                  injection h2 with h2
+                  subst h1; subst h2
+                  simp only
+                  constructor <;> omega
+        · cases h
 
 /-- without weighted receivers the whole developer reward goes to the community pool, so the
 reported supply grows by exactly the minted amount. -/
@@ -141,20 +166,18 @@ theorem supply_exact_without_receivers {p : Params} {s s' : State} {e : Int} {o 
     · split at h
       · cases h
       · split at h
-        · cases h
         · split at h
+          · cases h
           · split at h
             · cases h
             · split at h
               · cases h
-              · split at h
-                · cases h
-                · injection h with h
-                  injection h with h1 h2
-                  injection h2 with h2
-                  subst h2
-                  simp only [listSum]; omega
-          · cases h
+              · injection h with h
+                injection h with h1 h2
+                injection h2 with h2
+                subst h2
+                simp only [listSum]; omega
+        · cases h
 
 /-- F7 witness (recorded finding): receiver weights ⅓,⅓,rest and a minted amount they do not divide:
 the reported supply grows by one unit less than what was minted. -/
@@ -188,29 +211,27 @@ theorem reduction_step {p : Params} {s s' : State} {e : Int} {o : Option Obs}
     split at h
     · cases h
     · split at h
-      · cases h
       · split at h
+        · cases h
         · split at h
           · cases h
           · split at h
             · cases h
             · split at h
               · cases h
-              · split at h
-                · cases h
-                · injection h with h
-                  injection h with h1 h2
-                  subst h1
-                  simp only
-                  constructor
-                  · intro hge
-                    rw [if_pos (by simpa using hge)] at hprov
-                    exact ⟨hprov, by rw [if_pos (by simpa using hge)]⟩
-                  · intro hlt
-                    rw [if_neg (by simpa using hlt)] at hprov
-                    injection hprov with hprov
-                    exact ⟨hprov.symm, by rw [if_neg (by simpa using hlt)]⟩
-        · cases h
+              · injection h with h
+                injection h with h1 h2
+                subst h1
+                simp only
+                constructor
+                · intro hge
+                  rw [if_pos (by simpa using hge), nextEpochProvisions_eq] at hprov
+                  exact ⟨hprov, by rw [if_pos (by simpa using hge)]⟩
+                · intro hlt
+                  rw [if_neg (by simpa using hlt)] at hprov
+                  injection hprov with hprov
+                  exact ⟨hprov.symm, by rw [if_neg (by simpa using hlt)]⟩
+      · cases h
 
 /-- run consecutive epochs `e, e+1, …` (n of them); `none` if any of them errors. -/
 def runEpochs (p : Params) : Nat → Int → State → Option State
